@@ -30,6 +30,36 @@ REC_REVIEWED = {
 }
 
 
+PASSTHROUGH = re.compile(r'(ops::Try::branch|BytesMut::freeze|convert::Into::into|convert::From::from|Result::<.*>::map|Result::<.*>::map_err|Option::<.*>::map|ops::Deref::deref|Clone::clone|Bytes::from|ToOwned::to_owned)$')
+
+
+def producer_call(b, o, defs, depth=0):
+    """The call that produced the value of operand o, following single-definition copies, `?` (Try::branch + Continue.0) and
+    value-preserving wrappers (freeze, into, map); None when the chain leaves single definitions."""
+    for _ in range(12):
+        if 'l' not in o:
+            return None
+        d = defs.get(o['l'])
+        if d is None:
+            return None
+        x = d[1]
+        if x.get('k') == 'call':
+            fn = x['f'].get('fn', '') or ''
+            if PASSTHROUGH.search(fn) and x['args']:
+                o = x['args'][0]
+                continue
+            return x
+        r = x['r']
+        if r['k'] in ('use', 'cast') and 'l' in r['o'][0]:
+            o = dict(l=r['o'][0]['l'], pr=[])
+            continue
+        if r['k'] in ('ref', 'copyderef'):
+            o = dict(l=r['p']['l'], pr=[])
+            continue
+        return None
+    return None
+
+
 def focus(ctx, P):
     """Guards that live in a caller of the panic-capable site (R-panic's local tactics cannot see them)."""
     from rules.common import rdom
@@ -59,6 +89,34 @@ def focus(ctx, P):
     if b is not None:
         rdom(ctx, P + ':focus:gnupg-constructor-checks-key-length', b, call_blocks(b, r'aead_setup_gnupg$'), [r'call:.*SymmetricKeyAlgorithm::key_size$', r'call:.*len$|op:PtrMetadata'],
              'StreamDecryptor::new_gnupg compares key.len() with sym_alg.key_size() before the key is used as the AEAD key (which is sliced [..key_size])')
+    # the IV / nonce of a locked secret key is handed to CFB / AEAD primitives that assert its exact size
+    # (`GenericArray::from_slice`): the parser must size it by the algorithm's own accessor, never by a length octet of the packet
+    b = ctx.body('types::params::secret::parse_secret_fields')
+    if b is not None:
+        n = 0
+        for var, acc in (('LegacyCfb', 'block_size'), ('Aead', 'nonce_size'), ('Cfb', 'block_size'), ('MalleableCfb', 'block_size')):
+            for i, k, st in b.constructs(r'types::s2k::S2kParams$|S2kParams$', var):
+                flds = st['r'].get('fields') or []
+                ops = dict(zip(flds, st['r']['o']))
+                o = ops.get('nonce') or ops.get('iv')
+                if o is None:
+                    continue
+                n += 1
+                # definition chain (not the flow-insensitive origins: the reader is an out-parameter of every read)
+                defs = single_defs(b)
+                prod = producer_call(b, o, defs)
+                sized = loose = False
+                if prod is not None:
+                    fn = prod['f'].get('fn', '') or ''
+                    if fn.endswith('BufReadParsing::take_bytes') and len(prod['args']) > 1:
+                        sz = producer_call(b, prod['args'][1], defs)
+                        sized = sz is not None and (sz['f'].get('fn', '') or '').endswith('::' + acc)
+                    loose = not fn.endswith('BufReadParsing::take_bytes')
+                ctx.check('%s:focus:secret-iv-sized-by-algorithm:%s' % (P, var), 'R-dom',
+                          'the %s of S2kParams::%s is read with exactly %s() octets (the primitives assert that size)' % ('nonce' if 'nonce' in ops else 'iv', var, acc),
+                          sized and not loose, function=b.path, site=site(b, i),
+                          missing=None if (sized and not loose) else 'the field is not (only) sized by %s(): a length chosen by the packet reaches GenericArray::from_slice in the cipher and panics while unlocking' % acc)
+        ctx.floor(P + ':focus:secret-iv:floor', 'IV / nonce fields of parsed secret-key protection parameters', n, 4)
     # SecretKey::to_mpi recomputes u = p^-1 mod q and `expect`s it: the constructor from parsed material has to establish that it exists
     b = ctx.body('crypto::rsa::SecretKey::try_from_mpi')
     if b is not None:
